@@ -277,6 +277,11 @@ class Cached:
                 elif trip_body and r is not None:
                     # best replaced on the way out: only a failing best may be replaced by this trip's (failing) evaluation - an Ok best is the
                     # grown result and has to be what the rule returns
+                    r_ok = (r[0] == "agg" and r[2] == "Ok") or semspec.discr_case(l, r) == 0
+                    if r_ok:
+                        self.v("exit", "exit-after-improvement", "growth loop of parse_%s: an exit returns a successful evaluation that has just replaced the best "
+                               "result (%s): after an improvement the body has to be evaluated again with the new result standing for the recursive "
+                               "reference - a rule whose base alternative matches the empty string never grows" % (self.rule, mir.show(r)[:80]), lev)
                     if b_case != 1:
                         self.v("exit", "replaces-ok-best", "growth loop of parse_%s: an exit replaces the best result by %s without the best result being a "
                                "failure on that path: a growth step that fails (e.g. a @check rejecting the longer match) discards the match grown so far"
